@@ -4051,13 +4051,16 @@ func (data *Data) checkDDLConflict(e *proto2.MigrateEventInfo) error {
 	if dbi.MarkDeleted {
 		return errno.NewError(errno.DatabaseIsBeingDelete)
 	}
-	for rpName := range dbi.RetentionPolicies {
-		rpi := dbi.RetentionPolicies[rpName]
+	// which conflict is reported must not depend on the iteration order of the maps (every meta
+	// node applies the command and must return the same result): policies first, then measurements
+	for _, rpi := range dbi.RetentionPolicies {
 		if rpi.MarkDeleted {
 			return errno.NewError(errno.RpIsBeingDelete)
 		}
-		for mstIdx := range rpi.Measurements {
-			if rpi.Measurements[mstIdx].MarkDeleted {
+	}
+	for _, rpi := range dbi.RetentionPolicies {
+		for _, msti := range rpi.Measurements {
+			if msti.MarkDeleted {
 				return errno.NewError(errno.MstIsBeingDelete)
 			}
 		}
